@@ -2487,7 +2487,9 @@ fn main() {
         "archive_manager.live_objects_compared_after_compact.reopened-manager",
         "archive_manager.compact.calls_on_reopened_manager",
         "archive_manager.compact.runs_that_truncated_an_archive",
-        "archive_manager.compact.unused_tail_left_alone",
+        // ("archive_manager.compact.unused_tail_left_alone" is an outcome the implementation chooses — below its
+        // threshold it leaves an archive alone — and with the quick tier's eight cases it did not occur at one seed in
+        // thirteen: an observation, not a floor)
         "merge.plans_executed_on_real_segment_files",
         "merge.live_objects_compared_at_planned_location",
         "merge.populations_from_load_existing",
